@@ -483,8 +483,11 @@ func runC06(c *ctx) {
 		code := 2 + c.r.intn(10)
 		c06Attr(c, code, c.r.bool(), z.String(), "random-int")
 	}
+	// resource level: relationships hold the listed IDs, absent fields are zero,
+	// re-marshaling reproduces the payload
+	runPayloads(c, "C06")
 }
 
 func init() {
-	register("C06", []string{"Model.GoTime", "Gen.TypeGo", "Model.Schema", "Model.Value", "Model.Json", "Model.C06"}, runC06)
+	register("C06", []string{"Model.GoTime", "Gen.TypeGo", "Model.Schema", "Model.Value", "Model.Json", "Model.SoftRes", "Model.Wrapper", "Model.Resource", "Model.Unmarshal", "Model.C17", "Model.C01", "Model.C06"}, runC06)
 }
